@@ -29,6 +29,16 @@ func Root() string {
 }
 
 // Repo returns the repository under test.
+// Out is where evidence and replay files go: VERIF_OUT when set (used when seeded changes are
+// tried on scratch copies of the repository, so that those runs leave /verif/evidence alone),
+// else Root().
+func Out() string {
+	if r := os.Getenv("VERIF_OUT"); r != "" {
+		return r
+	}
+	return Root()
+}
+
 func Repo() string {
 	if r := os.Getenv("VERIF_REPO"); r != "" {
 		return r
@@ -231,7 +241,7 @@ func (r *Run) Violation(class, locus, detail string, witness interface{}) {
 			v.KnownAs = f.What
 		}
 	}
-	dir := filepath.Join(Root(), "replays", r.ID)
+	dir := filepath.Join(Out(), "replays", r.ID)
 	_ = os.MkdirAll(dir, 0o755)
 	name := sanitize(fmt.Sprintf("%s_%s_seed%d_%s", class, locus, r.Seed, r.Tier))
 	if len(name) > 150 {
@@ -323,8 +333,8 @@ func (r *Run) Finish() {
 	b, _ := json.MarshalIndent(ev, "", " ")
 	empty := evals == 0 || dn < 2 || len(r.samples) == 0
 	if r.replayPath == "" {
-		_ = os.MkdirAll(filepath.Join(Root(), "evidence"), 0o755)
-		if err := os.WriteFile(filepath.Join(Root(), "evidence", r.ID+".json"), b, 0o644); err != nil {
+		_ = os.MkdirAll(filepath.Join(Out(), "evidence"), 0o755)
+		if err := os.WriteFile(filepath.Join(Out(), "evidence", r.ID+".json"), b, 0o644); err != nil {
 			fmt.Fprintf(os.Stderr, "cannot write evidence: %v\n", err)
 			os.Exit(3)
 		}
